@@ -277,6 +277,12 @@ def run_case(case, res):
             t = TypedTree("t")
             nodes = gen.build(t, f, lambda i: f"n{i}", kind=lambda i: "ka" if (i * 7 + i // 2) % 3 else "kb")
             return t, nodes, {id(nd): i for i, nd in enumerate(nodes)}
+        if lab == "fwd":
+            # a plain tree that forwards attribute access to its data objects, whose attributes include names the typed
+            # classes use (`kind`); filtering must not care
+            t = Tree("t", forward_attrs=True, calc_data_id=lambda tree, d: d.key)
+            nodes = gen.build(t, f, lambda i: _Fwd(f"n{i}"))
+            return t, nodes, {id(nd): i for i, nd in enumerate(nodes)}
         t = Tree("t")
         if lab == "eqsib":
             nodes = gen.build(t, f, lambda i: "x", data_id=lambda i: f"id{i}")
@@ -334,7 +340,7 @@ def run_case(case, res):
                         t0, nodes0, _ = fresh()
                         def outside(tt, nn):
                             def rec(h):
-                                return [(c.data, c.data_id, rec(c) if c is not nn[start] else "BRANCH") for c in h.children]
+                                return [(str(c.data), c.data_id, rec(c) if c is not nn[start] else "BRANCH") for c in h.children]
                             return rec(tt)
                         if outside(t, nodes) != outside(t0, nodes0):
                             bad.append("filter() on a branch changed nodes outside the branch")
@@ -399,6 +405,20 @@ def run_case(case, res):
         res.violation(case, "; ".join(bad[:2])[:2500], n_bad=len(bad))
 
 
+class _Fwd:
+    """Data object for the forward_attrs flavour."""
+
+    def __init__(self, key):
+        self.key = key
+        self.kind = "a-data-attribute"
+        self.title = key.upper()
+
+    def __str__(self):
+        return self.key
+
+    __repr__ = __str__
+
+
 def _count(sh, start):
     def rec(i):
         return sum(1 + rec(c) for c in sh.kids[i])
@@ -447,7 +467,7 @@ def run_shard(spec, res):
                     if n >= 2 and (k // NSHARDS) % 3 == 0:
                         run_case({"f": fc, "assign": assign, "form": forms[0], "start": starts[0], "typed": True}, res)
                     if n >= 2:
-                        lab = ["eqsib", "clones"][(k // NSHARDS) % 2]
+                        lab = ["eqsib", "clones", "fwd"][(k // NSHARDS) % 3]
                         run_case({"f": fc, "assign": assign, "form": forms[0], "start": starts[0], "lab": lab, "lseed": k}, res)
                 if res.expired():
                     res.count("exhaustive_cut")
@@ -461,7 +481,7 @@ def run_shard(spec, res):
             w = rng.choice([[6, 5, 2, 1, 1, 1, 0.3], [3, 3, 1, 2, 2, 2, 1], [1, 6, 1, 1, 1, 1, 0.2]])
             assign = "".join(rng.choices(V, weights=w, k=n))
             run_case({"f": gen.code(f), "assign": assign, "form": rng.choice(["ret", "raise", "stopiter"]),
-                      "start": rng.choice([-1, -1, rng.randrange(n)]), "lab": rng.choice(["uniq", "eqsib", "clones"]),
+                      "start": rng.choice([-1, -1, rng.randrange(n)]), "lab": rng.choice(["uniq", "eqsib", "clones", "fwd"]),
                       "lseed": rng.randrange(10**6), "typed": rng.random() < 0.25}, res)
             if res.expired():
                 break
